@@ -28,6 +28,7 @@
     in harness/overlay/common).  The pre-D15 two-step AddMachine / RemMachine
     are kept as [add_prefix] / [rem_prefix] for the refutation lemmas. *)
 From Sheens Require Export Model.Step Model.Conc.
+From Sheens Require Export Gen.Names.
 
 (** a machine: specification source name and state *)
 Record mrec : Type := mk_mrec { r_spec : string; r_node : string; r_bs : bindings }.
@@ -73,13 +74,19 @@ Inductive dest : Type :=
 | DOne (mid : string)       (* the machine with that id, if any *)
 | DService (name : string). (* a service of the container, no machine *)
 
-(** the reserved names of Service.Route (mdb's Host.Route has none) *)
-Definition mcrew_services : list string := ["ws"; "http"; "timers"].
+(** the reserved names of Service.Route and of mdb's Host.Route (which has
+    none), and the key both look at: not written here but read from the
+    source of the tree under test by harness/cmd/genconsts (Gen/Names.v:
+    the case labels of the switch in Route, in source order, and the literal
+    index of the one map access).  Properties/C14_mcrew.v states that they
+    are the documented ones and that the two hosts look at the same key. *)
+Definition mcrew_services : list string := mcrew_route_services.
+Definition mdb_services : list string := mdb_route_services.
 
 Definition route (services : list string) (msg : json) : dest :=
   match msg with
   | JObj kvs =>
-      match assoc "to" kvs with
+      match assoc mcrew_route_key kvs with
       | Some (JStr s) => if existsb (String.eqb s) services then DService s else DOne s
       | _ => DAll             (* "Not a machine id, so ignore it?" *)
       end
@@ -384,6 +391,6 @@ Definition wk_m (name mid : string) (r : mrec) (msg : json) : option (string * b
   end.
 
 Definition svc_step_m : req -> svc -> svc * resp := svc_step spec_ok_m wk_m mcrew_services.
-Definition svc_step_mdb : req -> svc -> svc * resp := svc_step spec_ok_m wk_m [].
+Definition svc_step_mdb : req -> svc -> svc * resp := svc_step spec_ok_m wk_m mdb_services.
 Definition feed_m := feed spec_ok_m wk_m mcrew_services.
-Definition feed_mdb := feed spec_ok_m wk_m [].
+Definition feed_mdb := feed spec_ok_m wk_m mdb_services.
